@@ -1,5 +1,9 @@
 package main
 
-func buildMore(dir string, thorough bool) {}
+func buildMore(dir string, thorough bool) {
+	buildPureEncodings(dir)
+}
 
-func buildMoreTargets(thorough bool) {}
+func buildMoreTargets(thorough bool) {
+	buildPureTargets(thorough)
+}
